@@ -158,6 +158,51 @@ def main():
 				print(f'[fidelity] omp world {w}: results differ between real and shimmed dispensers')
 		print(f'[selftest fidelity] OpenMP: 60 worlds x (real libgomp, shim) x team 1/2/5/16 = {n_omp} kernel calls, {bad_omp} worlds with differing bits')
 		bad += bad_omp
+
+		# ---- 4. the command line as a REAL process (own interpreter, real stdout, real process pool, POSIX locale) versus
+		#         the in-process stand-in the checks use: same bytes on stdout / in the output file
+		import subprocess
+		from gvsim.seams import cli as cliseam
+		n_cli = bad_cli = 0
+		penv = dict(os.environ, PYTHONPATH=os.path.join(repo, 'src'), LC_ALL='C', LANG='C', OMP_NUM_THREADS='2')
+		penv.pop('LD_PRELOAD', None)
+		for w in range(6):
+			rng = random.Random(9000 + w)
+			d = os.path.join(root, f'cli{w}')
+			os.makedirs(d)
+			names = [b'plain_a.fasta', b'isolat_\xe9.fasta', b'isolat_\xe8.fa', b'with space.fna', b"quote's,comma.fasta", b'k(1):x;.fasta'][:rng.randint(3, 6)]
+			paths = []
+			base = G.make_genome(rng, 2, 400, 900)
+			for nm in names:
+				pth = os.path.join(os.fsencode(d), nm)
+				with open(pth, 'wb') as f:
+					f.write(G.fasta_bytes(G.mutate(rng, base, rng.choice([0.01, 0.1, 0.3]))))
+				paths.append(os.fsdecode(pth))
+			for cmd in (['tree', '-k', '6', '-p', 'AT', '--no-progress'] + paths,
+			            ['tree', '-k', '7', '-p', 'GC', '-c', '2', '--no-progress'] + paths[::-1],
+			            ['dist', '-k', '6', '-p', 'AT', '--no-progress', '-o', os.path.join(d, 'OUT.csv'), '--square'] + sum((['-q', x] for x in paths), [])):
+				outf = os.path.join(d, 'OUT.csv')
+				real = subprocess.run([sys.executable, '-m', 'gambit'] + cmd, env=penv, capture_output=True, cwd=d)
+				real_out = real.stdout + (open(outf, 'rb').read() if os.path.exists(outf) else b'')
+				if os.path.exists(outf):
+					os.unlink(outf)
+				sim = sx.Sim(_Ctx(random.Random(w)), machine_size=2, policy='fifo')
+				sx.activate(sim)
+				try:
+					inproc = cliseam.run(cmd)
+				finally:
+					sx.deactivate()
+				in_out = inproc.stdout.encode('utf-8', 'surrogateescape') + (open(outf, 'rb').read() if os.path.exists(outf) else b'')
+				if os.path.exists(outf):
+					os.unlink(outf)
+				n_cli += 1
+				if real.returncode != inproc.status or real_out != in_out:
+					bad_cli += 1
+					print(f'[fidelity] cli world {w} {cmd[0]}: real process exit {real.returncode} / in-process status {inproc.status}; outputs {"equal" if real_out == in_out else "DIFFER"}')
+					print('   real   :', real_out[:200], real.stderr[-200:])
+					print('   in-proc:', in_out[:200])
+		print(f'[selftest fidelity] command line: {n_cli} commands run as a real process (POSIX locale, non-UTF-8 and punctuated file names) and in-process: {bad_cli} differences')
+		bad += bad_cli
 	finally:
 		import shutil
 		shutil.rmtree(root, ignore_errors=True)
